@@ -361,6 +361,14 @@ pub fn c03_strategy(max_len: usize, transports: BoxedStrategy<Transport>) -> Box
             let mut conv = Conversation::default();
             // (now and then the body is announced with an expectation the client does not wait on)
             let expect = !upgrade && (mask >> 29) % 5 == 0;
+            // an upgrade request may carry a Content-Length (some clients add `Content-Length: 0` to a
+            // handshake): its body is the rest of the connection all the same
+            let mut headers = headers;
+            if upgrade && (mask >> 26) % 3 == 0 {
+                // (never more than what follows: a program may read_exact() the declared length)
+                let rest = framing_body_len(&framing);
+                headers.push(Hdr::new("Content-Length", &[0usize, rest.min(5), 0][(mask as usize >> 28) % 3].to_string()));
+            }
             conv.reqs.push(build_req(0, "POST".into(), "/body".into(), version, headers, framing, also_cl, mask as usize, mask, conn, expect));
             for i in 0..followers {
                 conv.reqs.push(sentinel(1 + i as u32));
@@ -566,6 +574,16 @@ pub fn c10_strategy(transports: BoxedStrategy<Transport>) -> BoxedStrategy<ConvC
                 let script = vec![Step::Send { from: 0, to: cut }, Step::AwaitFinals(i + 1), Step::Send { from: cut, to: total }, Step::AwaitFinals(exp.msgs.len()), Step::HalfClose];
                 return ConvCase { script, ..case0 };
             }
+            // a request line that is rejected as such may be the last thing the client sends (a client
+            // speaking another protocol, or one that waits for the verdict): no header, no blank line
+            let line_rejected = matches!(&case0.conv.reqs[at].mal, Some(Malform::ReqLineFields(_))) || matches!(&case0.conv.reqs[at].mal, Some(Malform::VersionToken(v)) if v != "HTTP/2.0" && v != "HTTP/3.0");
+            let total = if line_rejected && (variety >> 30) & 1 == 1 {
+                let rd = render(&case0.conv);
+                let from = rd.ranges[at].start;
+                rd.bytes[from..].windows(2).position(|w| w == b"\r\n").map(|p| from + p + 2).unwrap_or(total)
+            } else {
+                total
+            };
             // the client does not help: it neither closes nor sends more until every expected
             // response is there; then it waits for the close the model predicts (or half-closes)
             let mut script = vec![Step::Send { from: 0, to: total }, Step::AwaitFinals(exp.msgs.len())];
@@ -694,6 +712,14 @@ pub fn c16_strategy(transports: BoxedStrategy<Transport>) -> BoxedStrategy<ConvC
                 if i == at {
                     r.method = "POST".into();
                     r.headers.extend(headers.clone());
+                    // whatever protocol version the request line names (a version above 1.1 is answered
+                    // 505 and the connection goes on: the framing of the rejected request then matters)
+                    match (text.len() * 7 + headers.len() * 5 + n * 3) % 6 {
+                        1 => r.version = "HTTP/1.0".into(),
+                        2 => r.version = "HTTP/2.0".into(),
+                        3 => r.version = "HTTP/3.0".into(),
+                        _ => {}
+                    }
                     // whatever the request says about the connection, the offence is an offence
                     match text.len() + headers.len() * 3 + n {
                         k if k % 5 == 1 => r.headers.push(Hdr::new("Connection", "upgrade")),
